@@ -76,7 +76,7 @@ def peak_ref(f, e, fmin, fmax):
 # ----------------------------------------------------------------------------- (i) 1D definitions
 @st.composite
 def case_1d(draw):
-    s = draw(GS.spec1d_case(kinds=["smooth", "random", "sparse", "plateau", "random"]))
+    s = draw(GS.spec1d_case(kinds=["smooth", "random", "sparse", "plateau", "random"], history=True))
     b = draw(GS.band(s["f"]))
     return {"spec": s, **b}
 
@@ -131,6 +131,8 @@ def run_1d(c):
                 lambda: f"{gpd} vs {rd[ar, idx]} idx={idx}")
         require(O.close(gps, rs[ar, idx], rel=0, abs_=1e-9).all(), "peak_spread_uses_peak_moments", "")
     classes = ["band_" + c["band"], "layout_" + sc["layout"], "moments_" + sc["moment_kind"]]
+    if sc.get("history"):
+        classes.append("object_modified_in_place_after_earlier_queries")
     nontriv = bool((valid & (R >= 1e-3)).any())
     if valid.any() and (np.abs(np.abs(dir_of(A, B)[valid]) - 180) < 5).any():
         classes.append("mean_direction_near_seam_180")
@@ -147,7 +149,7 @@ def case_2d(draw):
         t0 = draw(st.sampled_from([0.0, delta / 2]))
     else:
         t0 = draw(st.one_of(st.sampled_from([0.0, delta / 2]), st.floats(0.0, 359.99)))
-    s = draw(GS.spec2d_case(max_nf=14, allowed_nd=[nd], uniform_only=True, max_cells=8000, max_len=2,
+    s = draw(GS.spec2d_case(max_nf=14, allowed_nd=[nd], uniform_only=True, max_cells=8000, max_len=2, history=True,
                             kinds=["smooth", "smooth", "random", "sparse", "plateau", "nan", "unidirectional"]))
     s["dir"] = [float((t0 + j * delta) % 360.0) for j in range(nd)]
     s["dir_kind"] = "uniform"
@@ -226,6 +228,8 @@ def run_2d(c):
     # peak variants
     idx, amb, has = peak_ref(f, e, fmin, fmax)
     classes = ["mirror" if mirror else "rotate", "layout_" + sc["layout"], "band_" + c["band"], "values_" + sc["values"]]
+    if sc.get("history"):
+        classes.append("object_modified_in_place_after_earlier_queries")
     if has.all() and not amb.any():
         ar = np.arange(n)
         pf0 = _arr(s0.peak_frequency(fmin, fmax)).reshape(n)
